@@ -1,0 +1,32 @@
+//go:build verif
+
+// Contracts for the acv verifier (/verif). Comment-only file: no executable code.
+
+package decryptor
+
+// Bound parameters of searchable conditions (C09): every value at a listed placeholder position is replaced by the blind
+// index of that value - whatever the value looks like (a 33-byte value that starts with the algorithm id is still a
+// plaintext to be hashed) - so that literals and bound parameters select the same rows. Positions not listed are copied.
+//@ func (encryptor *HashQuery) replaceValuesWithHMACs(ctx context.Context, values []base.BoundValue, placeholders []int, bindData map[int]config.ColumnEncryptionSetting) (out []base.BoundValue, changed bool, err error)
+//@   props C09
+//@   noinline calculateHmac
+//@   requires forall(j, 0, len(placeholders), 0 <= placeholders[j] && placeholders[j] < len(values))
+//@   loop 0 step every-listed-value-is-hashed: itercalled(HashQuery.calculateHmac) && itercalled(BoundValue.SetData) && sameslice(argof(HashQuery.calculateHmac)[1], ret(BoundValue.GetData)[0]) && sameslice(argof(BoundValue.SetData)[0], ret(HashQuery.calculateHmac)[0]) && ret(HashQuery.calculateHmac)[1] == nil
+//@   at call HashQuery.calculateHmac : assert arg[0] == ctx && ret(BoundValue.GetData)[1] == nil
+//@   at call BoundValue.GetData : assert recv == values[valueIndex]
+//@   at call BoundValue.SetData : assert recv == newValues[valueIndex]
+//@   ensures nothing-listed-nothing-changed: len(placeholders) == 0 ==> sameslice(out, values) && !changed && err == nil
+//@   ensures failure-returns-the-original-values: err != nil ==> sameslice(out, values) && !changed
+//@   ensures same-count: err == nil ==> len(out) == len(values)
+
+// The index is keyed by the HMAC key of the client the request runs under, and it is computed over the plaintext: over the
+// value itself when it is not an envelope, over the decrypted content when it is one.
+//@ func (encryptor *HashQuery) calculateHmac(ctx context.Context, data []byte) (mac []byte, err error)
+//@   props C02 C09
+//@   at call base.AccessContextFromContext : assert arg[0] == ctx
+//@   at call AccessContext.GetClientID : assert recv == ret(base.AccessContextFromContext)[0]
+//@   at call HashDecryptStore.GetHMACSecretKey : assert recv == encryptor.keystore && sameslice(arg[0], ret(AccessContext.GetClientID)[0])
+//@   at call ExtendedDataProcessor.MatchDataSignature : assert sameslice(arg[0], data)
+//@   at call ExtendedDataProcessor.Process : assert ret(ExtendedDataProcessor.MatchDataSignature)[0] && sameslice(arg[0], data)
+//@   at call hmac.GenerateHMAC : assert index-over-plaintext: sameslice(arg[0], ret(HashDecryptStore.GetHMACSecretKey)[0]) && ret(HashDecryptStore.GetHMACSecretKey)[1] == nil && ((ret(ExtendedDataProcessor.MatchDataSignature)[0] && called(ExtendedDataProcessor.Process) && ret(ExtendedDataProcessor.Process)[1] == nil && sameslice(arg[1], ret(ExtendedDataProcessor.Process)[0])) || (!ret(ExtendedDataProcessor.MatchDataSignature)[0] && sameslice(arg[1], data)))
+//@   ensures index-returned: err == nil ==> sameslice(mac, ret(hmac.GenerateHMAC)[0])
